@@ -458,7 +458,7 @@ Proof.
   - right. destruct H4 as [->|[Hcf ->]]; destruct ob; simpl; repeat split; auto.
 Qed.
 
-(* when the converter's error is raised as a fatalError, a writer failing during
+(* when the converter error is raised as a fatalError, a writer failing during
    the conversion makes Run panic: the witness is an HTML file rendering a
    Markdown file, with a converter that writes once *)
 Lemma conv_fatal_refutes :
